@@ -1,6 +1,7 @@
 import GmqttVerif.Model.Broker
 import GmqttVerif.Model.Takeover
 import GmqttVerif.Proofs.Session
+import GmqttVerif.Generated.MuHeld
 /-
   C05 — Session lifecycle: resume iff it should; one connection per client id.
 
@@ -147,3 +148,17 @@ example : ∃ s : State 2, Reachable false s ∧ attached s 0 :=
   ⟨_, .step _ _ (.step _ _ .init (.checkNoSession (init 2) 0 rfl rfl rfl)) (.register _ 0 rfl rfl), .inl rfl⟩
 
 end GmqttVerif.Takeover
+
+/-! ### the take-over check is made under the lock it is acted on, re-read from the source on every run -/
+namespace GmqttVerif.C05Source
+open GmqttVerif.Generated
+
+/-- In `lockDuplicatedID` both reads the decision rests on — "is a session stored for this id" (`sessionStore.Get`) and "is a
+    client with this id attached" (`srv.clients[…]`) — are made with `srv.mu` held on every path that reaches them
+    (`Generated/MuHeld.lean`, a must-hold walk of the function body that follows its branches, `continue` and `break`). This is
+    the atomic step "check" of `Model/Takeover.lean`; with `takeover_exclusive` it gives one connection per client id for every
+    number of simultaneous CONNECTs. A read made before the lock can be stale by the time it is acted on: two first-time
+    CONNECTs with one id would both see "no session" and both register. -/
+theorem takeover_check_under_mu : takeoverCheckCodes = [1, 1] := by decide
+
+end GmqttVerif.C05Source
